@@ -34,6 +34,7 @@ type extModel struct {
 	// per result index: true = result is clean regardless of the arguments
 	cleanResults map[int]bool
 	reason       string
+	noOutParams  bool // the call does not store operand-derived data through its pointer operands
 }
 
 type taintCfg struct {
@@ -371,7 +372,7 @@ func (ts *taintState) textOf(v ssa.Value) (taintKind, string) {
 	}
 	t := inner.Type()
 	if _, isIface := t.Underlying().(*types.Interface); !isIface {
-		if m := ts.stringerOf(t); m != nil {
+		if m := ts.stringerOf(t); m != nil && ts.cfg.inScope(m) {
 			if r := ts.ret[m]; len(r) > 0 && r[0]&tText != 0 {
 				k |= tText
 				why = "its " + m.Name() + "() result"
@@ -551,6 +552,28 @@ func (ts *taintState) handleCall(f *ssa.Function, in ssa.Instruction, cc *ssa.Ca
 			anyConn = a
 		}
 	}
+	if anyText != nil && !(hasModel && model.noOutParams) {
+		// out-parameters: an external call handed a tainted operand may store it (or something derived from it)
+		// through its pointer operands - errors.As(err, &target), json.Unmarshal(data, &v), fmt.Sscan, ...
+		for _, a := range actuals {
+			if a == anyText {
+				continue
+			}
+			for {
+				if mi, ok := a.(*ssa.MakeInterface); ok {
+					a = mi.X // errors.As(err, &target): the pointer travels inside an `any`
+					continue
+				}
+				break
+			}
+			if pt, ok := a.Type().Underlying().(*types.Pointer); ok && canCarryText(pt.Elem(), 0) {
+				switch a.(type) {
+				case *ssa.Alloc, *ssa.FieldAddr, *ssa.IndexAddr, *ssa.Global:
+					ts.storeTo(a, tText, anyText)
+				}
+			}
+		}
+	}
 	for i, rv := range results {
 		if hasModel && model.cleanResults[i] {
 			continue
@@ -597,7 +620,10 @@ func (ts *taintState) step(f *ssa.Function) {
 						}
 					}
 					ts.add(x, k, from, "", x.Pos())
-					// pointer value loaded from a cell keeps the pointee's cell taint
+					// a field of an object that is itself tainted (e.g. filled in by an external call) is tainted
+					if fa, ok := x.X.(*ssa.FieldAddr); ok && ts.val[fa.X]&tText != 0 {
+						ts.add(x, tText, fa.X, "field of a tainted object", x.Pos())
+					}
 				} else {
 					ts.add(x, ts.val[x.X], x.X, "", x.Pos())
 				}
@@ -677,7 +703,7 @@ func (ts *taintState) step(f *ssa.Function) {
 					ts.changed = true
 				}
 			case *ssa.Field:
-				k := ts.val[x.X] & tConn
+				k := ts.val[x.X] & (tConn | tText)
 				ts.add(x, k|ts.field[fieldKey(x.X.Type(), x.Field)], x.X, "", x.Pos())
 			case *ssa.FieldAddr:
 				// the address value itself carries nothing; loads consult the field cell - except the embedded part
